@@ -243,7 +243,14 @@ def shard(prop, tier, seed, shard, nshards):
         if jit == "some":
             jit = draw(st.lists(st.sampled_from([0.0, 2.0 ** -20, period / 64, period / 4]), min_size=1, max_size=6))
         ext = []
-        if draw(st.integers(0, 2)) == 0:
+        burst = draw(st.integers(0, 7)) == 0
+        if burst:
+            # many events for one simulator, announced in any order, most of them pending at the same time
+            until = draw(st.integers(8, 12))
+            for _ in range(draw(st.integers(4, 8))):
+                at = draw(st.sampled_from([0.0, 0.0, 0.0, 1.5 * period, 2.5 * period, 3.5 * period]))
+                ext.append({"at": at, "sim": "E", "event": int(at // period) + 1 + draw(st.integers(0, 9))})
+        elif draw(st.integers(0, 2)) == 0:
             for _ in range(draw(st.integers(1, 2))):
                 at = draw(st.sampled_from([0.0, 0.5 * period, period, 1.75 * period, 2.5 * period]))
                 # strictly in the future at that instant (period * t > at), possibly at or after until
